@@ -244,9 +244,10 @@ class LocMap:
                     key = reduce(operator_mod.or_, (labels_ref == k for k in key), np.full(len(labels), False))
 
             if is_array and key.dtype == DTYPE_BOOL:
-                if offset_apply:
-                    return positions[key] + offset
-                return positions[key]
+                # a new array: do not return it writeable
+                post = positions[key] + offset if offset_apply else positions[key]
+                post.flags.writeable = False
+                return post
 
             # map labels to integer positions, return a list of integer positions
             # NOTE: we may miss the opportunity to identify contiguous keys and extract a slice
@@ -997,6 +998,7 @@ class Index(IndexBase):
                 raise LocInvalid(f'Invalid loc: {key}')
 
             if is_bool_array:
+                result.flags.writeable = False
                 return result # return position as array
 
             if isinstance(key, slice):
